@@ -1,7 +1,7 @@
 """Property id -> check function."""
 import json
 
-from . import props_pool, props_router, props_plugins, props_relay, props_pause, props_shutdown
+from . import props_pool, props_router, props_plugins, props_relay, props_pause, props_shutdown, props_reload
 
 CHECKS = {
     'C01': props_pool.check,
@@ -15,6 +15,7 @@ CHECKS = {
     'C03': props_relay.check_c03,
     'C16': props_pause.check_c16,
     'C17': props_shutdown.check_c17,
+    'C14': props_reload.check_c14,
 }
 
 
